@@ -72,6 +72,21 @@ spec fn queued(b: GenericSocketBackend) -> Option<Map<PeerIdentity, ZmqFramedRea
 }
 
 impl GenericSocketBackend {
+// C01 / C04: a socket announces ITS OWN type: the backend is built with it and hands it out unchanged
+//@ item src/backend.rs :: impl GenericSocketBackend / fn with_options
+//@ ret r
+//@ spec
+//@|        ensures
+//@|            r.socket_type == socket_type, r.fair_queue_inner == fair_queue_inner, r.socket_options == options,
+//@|            r.peers@ == Map::<PeerIdentity, Peer>::empty(), r.round_robin@ == Seq::<PeerIdentity>::empty(),
+//@ end
+//@ item src/backend.rs :: impl SocketBackend for GenericSocketBackend / fn socket_type
+//@ name GenericSocketBackend::socket_type
+//@ inherent
+//@ ret r
+//@ spec
+//@|        ensures r == self.socket_type,
+//@ end
 // C09 / C10: write half stored under, read half queued under, and rotation entered with the SAME identity
 //@ item src/backend.rs :: impl MultiPeerBackend for GenericSocketBackend / fn peer_connected
 //@ name GenericSocketBackend::peer_connected
@@ -376,6 +391,44 @@ spec fn rr_socket_sent(b0: GenericSocketBackend, b1: GenericSocketBackend, r: Zm
             &&& r is Err ==> b1.peers@ =~= b0.peers@.remove(p)
         }
 }
+// ---- constructors: which type each socket announces (C01 / C04) ----
+impl RouterSocket {
+//@ item src/router.rs :: impl Socket for RouterSocket / fn with_options
+//@ name RouterSocket::with_options
+//@ inherent
+//@ ret r
+//@ spec
+//@|        ensures r.backend.socket_type is ROUTER, r.backend.peers@ == Map::<PeerIdentity, Peer>::empty(), r.backend.round_robin@.len() == 0,
+//@ end
+}
+impl DealerSocket {
+//@ item src/dealer.rs :: impl Socket for DealerSocket / fn with_options
+//@ name DealerSocket::with_options
+//@ inherent
+//@ ret r
+//@ spec
+//@|        ensures r.backend.socket_type is DEALER, r.backend.peers@ == Map::<PeerIdentity, Peer>::empty(), r.backend.round_robin@.len() == 0,
+//@ end
+}
+impl PushSocket {
+//@ item src/push.rs :: impl Socket for PushSocket / fn with_options
+//@ name PushSocket::with_options
+//@ inherent
+//@ ret r
+//@ spec
+//@|        ensures r.backend.socket_type is PUSH, r.backend.peers@ == Map::<PeerIdentity, Peer>::empty(), r.backend.round_robin@.len() == 0,
+//@ end
+}
+impl PullSocket {
+//@ item src/pull.rs :: impl Socket for PullSocket / fn with_options
+//@ name PullSocket::with_options
+//@ inherent
+//@ ret r
+//@ spec
+//@|        ensures r.backend.socket_type is PULL, r.backend.peers@ == Map::<PeerIdentity, Peer>::empty(), r.backend.round_robin@.len() == 0,
+//@ end
+}
+
 // ---- C10 corollary: strict rotation ----
 /// the rotation after one successful send when the first identity is live: it moves to the back
 pub open spec fn rotate(q: Seq<PeerIdentity>) -> Seq<PeerIdentity> { q.subrange(1, q.len() as int).push(q[0]) }
